@@ -21,6 +21,7 @@ DL_BLOCK = 1 << 18
 CP_BLOCK = getattr(shutil, 'COPY_BUFSIZE', 64 * 1024)
 CALLS = {0: 'download', 1: 'decompress'}
 FS_KINDS = ('open', 'write', 'rename')
+WRITE_BUFFER = 8192      # io.DEFAULT_BUFFER_SIZE: smaller writes only fail when the buffer is flushed
 
 
 def pattern(n, salt):
@@ -39,49 +40,147 @@ def pattern(n, salt):
   return bytes(b)
 
 
-class _Raw:
+ERROR_PAGE = b'<html><body><h1>503 Service Unavailable</h1>' + b'the backend is overloaded, try again later. ' * 40 + b'</body></html>'
 
-  def __init__(self, data, inj, sizes):
+
+def parse_variant(v):
+  """Response variant of one download call:
+    'ok'            200, content-length = payload length
+    'none'          200 without a content-length header (chunked transfer encoding)
+    'drop:K'        200, content-length = payload length, connection closed after K body bytes
+    'status:C[:N]'  the first N requests of the call (default: all) are answered with HTTP status C and an
+                    error page (with its own content-length); later requests get the good response
+  """
+  if v in (None, 'ok'):
+    return ('ok',)
+  if v == 'none':
+    return ('none',)
+  parts = str(v).split(':')
+  if parts[0] == 'drop':
+    return ('drop', int(parts[1]))
+  if parts[0] == 'status':
+    return ('status', int(parts[1]), int(parts[2]) if len(parts) > 2 else 10 ** 9)
+  raise ValueError(f'unknown response variant {v!r}')
+
+
+def describe_variant(v):
+  t = parse_variant(v)
+  if t[0] == 'ok':
+    return ''
+  if t[0] == 'none':
+    return ', response without content-length header'
+  if t[0] == 'drop':
+    return f', connection closed by the server after {t[1]} body bytes'
+  return f', server answers HTTP {t[1]} with an error page' + ('' if t[2] >= 10 ** 9 else f' to the first {t[2]} request(s)')
+
+
+def same_listing(model, impl):
+  """Observation function of the cache directory: the two FINAL names are compared exactly (absent, or
+  (length, is-the-payload)); for the two TEMP names only presence and "is a prefix of the payload / stale
+  garbage" are compared — how many bytes of a temp file are on disk at a crash point is not part of the
+  property and legitimately depends on block size, buffering or sparse copying."""
+  if not (isinstance(model, list) and isinstance(impl, list) and len(model) == len(impl) == 4):
+    return model == impl
+  for i in (0, 2):
+    if model[i] != impl[i]:
+      return False
+  for i in (1, 3):
+    a, b = model[i], impl[i]
+    if (a is None) != (b is None) or (a is not None and bool(a[1]) != bool(b[1])):
+      return False
+  return True
+
+
+class _Raw:
+  """`response.raw` with the read semantics of urllib3 2.x over http.client (calibrated against the real
+  library on a loopback socket, and monitored on every run by `_loopback_monitor`):
+    * a read is clamped to the bytes the content-length still announces;
+    * a read that gets SOME bytes before the connection closes returns them silently, even if fewer than asked;
+    * a read that gets NO bytes although the content-length is not exhausted raises
+      ProtocolError('Connection broken: IncompleteRead(…)'); read(None) raises it whenever the body is short;
+    * without a content-length, reads return what is there and b'' at the end.
+  """
+
+  def __init__(self, data, inj, sizes, declared=None, available=None):
     self._data, self._pos, self._inj, self._sizes = data, 0, inj, sizes
+    self._declared = declared                   # content-length (None: not announced)
+    self._avail = len(data) if available is None else min(available, len(data))
+
+  def _broken(self):
+    from urllib3.exceptions import IncompleteRead, ProtocolError
+    e = IncompleteRead(self._pos, self._declared - self._pos)
+    return ProtocolError(f'Connection broken: {e!r}', e)
 
   def read(self, n=None, *a, **k):
     self._inj.event('net', n)
     self._sizes.append(n)
-    if n is None or n < 0:
-      n = len(self._data) - self._pos
-    out = self._data[self._pos:self._pos + n]
+    if n is not None and n < 0:
+      n = None
+    remaining = None if self._declared is None else self._declared - self._pos
+    if n is None:
+      out = self._data[self._pos:self._avail]
+      self._pos += len(out)
+      if remaining is not None and len(out) < remaining:
+        raise self._broken()
+      return out if remaining is None else out[:remaining]
+    want = n if remaining is None else min(n, remaining)
+    out = self._data[self._pos:min(self._pos + want, self._avail)]
     self._pos += len(out)
+    if n != 0 and not out and remaining:
+      raise self._broken()
     return out
 
 
 class _Resp:
 
-  def __init__(self, data, inj, sizes, hdr='ok'):
-    # `hdr='none'`: a successful response without a content-length header (chunked transfer
-    # encoding, transcoded objects); the body is the same payload.
+  def __init__(self, data, inj, sizes, variant='ok', request_no=0):
     from requests.structures import CaseInsensitiveDict
+    v = parse_variant(variant)
     self.headers = CaseInsensitiveDict({'Content-Type': 'application/octet-stream'})
-    if hdr == 'ok':
-      self.headers['Content-Length'] = str(len(data))
-    else:
-      self.headers['Transfer-Encoding'] = 'chunked'
     self.status_code = 200
-    self.raw = _Raw(data, inj, sizes)
+    self.reason = 'OK'
+    self.url = 'https://example.invalid/'
+    declared, avail = len(data), None
+    if v[0] == 'status' and request_no < v[2]:
+      self.status_code, self.reason = v[1], 'Service Unavailable' if v[1] >= 500 else 'Not Found'
+      data = ERROR_PAGE
+      declared = len(data)
+      self.headers['Content-Type'] = 'text/html'
+    elif v[0] == 'none':
+      declared = None
+    elif v[0] == 'drop':
+      avail = v[1]
+    if declared is None:
+      self.headers['Transfer-Encoding'] = 'chunked'
+    else:
+      self.headers['Content-Length'] = str(declared)
+    self.ok = self.status_code < 400
+    self.raw = _Raw(data, inj, sizes, declared, avail)
     self._data = data
 
   def raise_for_status(self):
+    if self.status_code >= 400:
+      import requests
+      kind = 'Client' if self.status_code < 500 else 'Server'
+      raise requests.exceptions.HTTPError(f'{self.status_code} {kind} Error: {self.reason} for url: {self.url}',
+                                          response=self)
     return None
 
   def iter_content(self, chunk_size=1, decode_unicode=False):
+    import requests
+    from urllib3.exceptions import ProtocolError
     while True:
-      b = self.raw.read(chunk_size)
+      try:
+        b = self.raw.read(chunk_size)
+      except ProtocolError as e:
+        raise requests.exceptions.ChunkedEncodingError(e)
       if not b:
         return
       yield b
 
   @property
   def content(self):
-    return self.raw.read(None)
+    return b''.join(self.iter_content(10240))
 
   def close(self):
     pass
@@ -91,6 +190,70 @@ class _Resp:
 
   def __exit__(self, *a):
     return False
+
+
+class _Loopback:
+  """A real HTTP/1.1 server on 127.0.0.1 (port 0, daemon thread, time-outs everywhere) that serves the same
+  response variants as the stub; used for a handful of cases per run with the REAL requests/urllib3."""
+
+  def __init__(self, data, variant):
+    import socket
+    import threading
+    self._data, self._v = data, parse_variant(variant)
+    self._sock = socket.socket()
+    self._sock.setsockopt(socket.SOL_SOCKET, socket.SO_REUSEADDR, 1)
+    self._sock.bind(('127.0.0.1', 0))
+    self._sock.listen(8)
+    self._sock.settimeout(0.05)
+    self.port = self._sock.getsockname()[1]
+    self.requests = 0
+    self._stop = False
+    self._t = threading.Thread(target=self._run, daemon=True)
+    self._t.start()
+
+  def _run(self):
+    import socket
+    try:
+      while not self._stop:
+        try:
+          c, _ = self._sock.accept()
+        except socket.timeout:
+          continue
+        try:
+          c.settimeout(5.0)
+          buf = b''
+          while b'\r\n\r\n' not in buf:
+            x = c.recv(65536)
+            if not x:
+              break
+            buf += x
+          n = self.requests
+          self.requests += 1
+          v = self._v
+          status, reason, body, send, cl = 200, 'OK', self._data, None, True
+          if v[0] == 'status' and n < v[2]:
+            status, reason, body = v[1], ('Service Unavailable' if v[1] >= 500 else 'Not Found'), ERROR_PAGE
+          elif v[0] == 'none':
+            cl = False
+          elif v[0] == 'drop':
+            send = v[1]
+          head = f'HTTP/1.1 {status} {reason}\r\nContent-Type: application/octet-stream\r\nConnection: close\r\n'
+          if cl:
+            head += f'Content-Length: {len(body)}\r\n'
+          c.sendall((head + '\r\n').encode())
+          c.sendall(body if send is None else body[:send])
+        finally:
+          c.close()
+    except OSError:
+      pass
+
+  def close(self):
+    self._stop = True
+    self._t.join(timeout=2.0)
+    try:
+      self._sock.close()
+    except OSError:
+      pass
 
 
 class _RFile:
@@ -142,15 +305,24 @@ class C19(core.Property):
           'enumeration of every crash point (event index x byte prefix of each write) of one call or a random '
           'schedule of 1-4 interrupted calls with crash / OSError / hard-kill modes; lzma archives with 1-3 '
           'concatenated streams and an optional empty first stream (reference = lzma.decompress of the whole file); '
-          'download responses with and without a content-length header), always followed by completed calls and a '
+          'download responses with and without a content-length header, connections closed by the server after k of '
+          'N announced bytes (inside the last block, at a block boundary, in an earlier block, k = 0; urllib3-faithful '
+          'reads), HTTP error statuses with an error page for all / the first requests of a call; OSError out of every '
+          'unbuffered-size write; decompressed payloads ending in zero blocks / all zero; a handful of cases per run go '
+          'through the real requests/urllib3 over a real loopback socket and must agree with the stub), always '
+          'followed by completed calls and a '
           'reuse call; non-trivial = at least one interruption happened after the first file-system effect; '
           'distinct by case digest')
   TRUSTED = ['POSIX rename atomicity; Python file objects / lzma / shutil.copyfileobj; network I/O of `requests` '
-             'is replaced by a local stub (headers, raw.read, iter_content)',
+             'is replaced by a local stub (headers, status, raw.read with the short-read / IncompleteRead semantics '
+             'of urllib3 2.x, iter_content); the stub is monitored on every run against the real requests/urllib3 '
+             'talking to a real loopback socket server on a handful of cases',
              'crashes are simulated by unwinding the call with a BaseException after flushing a byte prefix '
              '(every on-disk state a real crash can leave is such a prefix state)']
   ASSUMPTIONS = ['a crash leaves, for the file being written, some prefix of the bytes handed to write()',
-                 'the server delivers content-length bytes unless the read raises']
+                 'a connection that the server closes early behaves as with urllib3 2.x over http.client: reads return '
+                 'what arrived, only a read that gets nothing before content-length is exhausted raises (monitored '
+                 'against the real library on a loopback socket on every run)']
   QUICK_BUDGET_S = 60
   THOROUGH_BUDGET_S = 400
 
@@ -202,6 +374,27 @@ class C19(core.Property):
       yield {'kind': 'raw', 'size': s, 'init': dict(empty), 'sched': [[0, 1000, 0, 0, 'none']]}
     yield {'kind': 'raw', 'size': 3 * B + 7, 'init': {**empty, 'dlPart': 3}, 'sched': [[0, 600, 500, 0, 'none'], [0, 1000, 0, 0, 'none']]}
     yield {'kind': 'lzma', 'size': 70000, 'streams': 2, 'init': dict(empty), 'sched': [[0, 1000, 0, 0, 'none'], [1, 500, 0, 2]]}
+    # connection closed by the server after k of N announced bytes (urllib3-faithful reads): inside the last
+    # block, at a block boundary, inside an earlier block, before the first byte
+    drops = [(1000, 400), (1000, 999), (1, 0), (B, B - 1), (B + 1, B), (B + 1, 1), (3 * B + 7, 3 * B + 3),
+             (3 * B + 7, 3 * B), (3 * B + 7, B + 5), (2 * B, 2 * B - 1), (2 * B, B), (3 * B + 7, 0)]
+    for n_, k_ in drops:
+      yield {'kind': 'raw', 'size': n_, 'init': dict(empty), 'sched': [[0, 1000, 0, 0, f'drop:{k_}']]}
+    yield {'kind': 'raw', 'size': B + 9, 'init': {**empty, 'dlPart': 3}, 'sched': [[0, 1000, 0, 0, f'drop:{B + 4}'], [0, 1000, 0, 0, 'drop:5']]}
+    yield {'kind': 'lzma', 'size': 200000, 'init': dict(empty), 'sched': [[0, 1000, 0, 0, 'drop:20'], [1, 1000, 0, 0]]}
+    # HTTP error statuses with an error page (and its content-length): for every request / only for the first ones
+    for v in ('status:503', 'status:500:2', 'status:404', 'status:502:1', 'status:403:1'):
+      yield {'kind': 'raw', 'size': 1000 if v.endswith('3') else B + 1, 'init': dict(empty), 'sched': [[0, 1000, 0, 0, v]]}
+    # the same variants through the real requests/urllib3 over a real loopback socket (monitors the stub)
+    for n_, v in ((1000, 'drop:400'), (B + 5, f'drop:{B + 2}'), (2 * B + 10, f'drop:{B + 3}'), (B + 1, f'drop:{B}'),
+                  (1000, 'none'), (1000, 'status:503'), (B + 1, 'ok')):
+      yield {'kind': 'raw', 'size': n_, 'init': dict(empty), 'loopback': v}
+    # decompressed payloads that end in zero bytes (>= one copy block, a zero tail block, all zero)
+    yield {'kind': 'lzma', 'size': 2 * C, 'zeros': C, 'init': {**empty, 'dl': True}, 'enumerate': 1}
+    yield {'kind': 'lzma', 'size': C + 100, 'zeros': 100, 'init': dict(empty), 'sched': [[0, 1000, 0, 0], [1, 1000, 0, 0]]}
+    yield {'kind': 'lzma', 'size': 5000, 'zeros': 5000, 'init': {**empty, 'dl': True}, 'sched': [[1, 1000, 0, 0]]}
+    yield {'kind': 'lzma', 'size': 3 * C, 'zeros': 3 * C, 'streams': 2, 'init': {**empty, 'dl': True}, 'sched': [[1, 500, 500, 0], [1, 1000, 0, 0]]}
+    yield {'kind': 'lzma', 'size': 3 * C + 7, 'zeros': 2 * C + 7, 'init': {**empty, 'dl': True}, 'sched': [[1, 1000, 0, 0]]}
     if tier == 'thorough':
       for s in (2, 4095, 2 * B, 2 * B + 1, 5 * B - 1):
         yield {'kind': 'raw', 'size': s, 'init': {**empty, 'dlPart': s // 3}, 'enumerate': 0, 'fine': True}
@@ -222,12 +415,22 @@ class C19(core.Property):
       for _ in range(rng.randrange(1, 5)):
         call = 0 if kind == 'raw' else rng.choice([0, 1, 1])
         step = [call, rng.randrange(0, 1001), rng.randrange(0, 1001), rng.choice([0, 0, 1, 2, 3])]
-        if call == 0 and rng.random() < 0.15:
-          step.append('none')
-          if rng.random() < 0.5:
-            step[1] = 1000         # not interrupted: the call itself has to cope with the missing header
+        if call == 0 and rng.random() < 0.3:
+          u = rng.random()
+          if u < 0.35:
+            step.append('none')
+          elif u < 0.8:
+            nblocks = (size + B - 1) // B
+            k = rng.choice([0, size - 1, size // 2, (nblocks - 1) * B, (nblocks - 1) * B + 1, rng.randrange(0, size + 1)])
+            step.append(f'drop:{max(0, min(k, size))}')
+          else:
+            step.append(rng.choice(['status:503', 'status:500:2', 'status:404', 'status:503:1']))
+          if rng.random() < 0.6:
+            step[1] = 1000         # not interrupted: the call itself has to cope with the response
         sched.append(step)
       case = {'kind': kind, 'size': size, 'init': init, 'sched': sched}
+      if kind == 'lzma' and rng.random() < 0.2:
+        case['zeros'] = rng.choice([size, min(size, C), min(size, 100), size // 2])
       if kind == 'lzma' and rng.random() < 0.4:
         case['streams'] = rng.choice([2, 2, 3])
         case['empty_first'] = rng.random() < 0.3
@@ -237,6 +440,15 @@ class C19(core.Property):
     if 'enumerate' in case:
       call = case['enumerate']
       hit = getattr(self, '_last_fail', {}).get(core.case_digest(case))
+      extra = {k: case[k] for k in ('streams', 'empty_first', 'zeros') if k in case}
+      if hit and hit[0] == 'werr':
+        _, c, pb, n, m = hit
+        cf = -(-c * 1001 // (n + 1))
+        while (cf * (n + 1)) // 1001 < c:
+          cf += 1
+        pf = 0 if not m else min(1000, -(-pb * 1000 // m))
+        yield {'kind': case['kind'], 'size': case['size'], 'init': case['init'], **extra, 'sched': [[call, cf, pf, 1]]}
+        return
       if hit:
         c, f, n = hit
         cf = -(-c * 1001 // (n + 1))
@@ -247,6 +459,8 @@ class C19(core.Property):
       for cf in (500, 250, 750, 0, 100, 200, 300, 400, 600, 700, 800, 900, 1000, 50, 950):
         for pf in (500, 0, 999):
           yield {'kind': case['kind'], 'size': case['size'], 'init': case['init'], 'sched': [[call, cf, pf, 0]]}
+      return
+    if 'loopback' in case:
       return
     sched = case['sched']
     for i in range(len(sched)):
@@ -259,12 +473,19 @@ class C19(core.Property):
     for k in ('dec',):
       if init.get(k):
         yield {**case, 'init': {**init, k: False}}
+    if 'loopback' in case:
+      return
+    for i, st in enumerate(sched):
+      if len(st) > 4 and str(st[4]).startswith('drop:'):
+        for s2 in (2, 1000):
+          if s2 < case['size']:
+            yield {**case, 'size': s2, 'sched': sched[:i] + [list(st[:4]) + [f'drop:{s2 // 2}']] + sched[i + 1:]}
     if case.get('empty_first'):
       yield {**case, 'empty_first': False}
     if case.get('streams', 1) > 2:
       yield {**case, 'streams': 2}
     s = case['size']
-    for c in sorted({1000, s // 2, s - 1}):
+    for c in sorted({1000, WRITE_BUFFER + 1, s // 2} | ({s - 1} if s <= 16 else set())):
       if 0 < c < s:
         yield {**case, 'size': c}
     for i, st in enumerate(sched):
@@ -278,11 +499,11 @@ class C19(core.Property):
             yield {**case, 'sched': sched[:i] + [ns] + sched[i + 1:]}
 
   # ------------------------------------------------------------------------------------------
-  def payloads(self, kind, size, streams=1, empty_first=False):
+  def payloads(self, kind, size, streams=1, empty_first=False, zeros=0):
     """(bytes served by the download, decompressed reference).  For kind 'lzma' the archive consists of
     `streams` concatenated xz streams (as `cat a.xz b.xz` / `lzma.open(..., 'ab')` produce), optionally
     preceded by an empty stream; the reference is Python's `lzma.decompress` of the whole archive."""
-    key = (kind, size, streams, empty_first)
+    key = (kind, size, streams, empty_first, zeros)
     if key not in self._pcache:
       if len(self._pcache) > 40:
         self._pcache.clear()
@@ -290,6 +511,11 @@ class C19(core.Property):
         self._pcache[key] = (pattern(size, 3), b'')
       else:
         dec = pattern(size, 11)
+        if zeros:
+          # the decompressed payload ends in `zeros` zero bytes (zeroed free pages / padding of a database);
+          # zeros >= size: an all-zero payload
+          z = min(int(zeros), size)
+          dec = dec[:size - z] + bytes(z)
         k = max(1, int(streams))
         cuts = [size * i // k for i in range(k + 1)]
         comp = b''.join(_lzma.compress(dec[cuts[i]:cuts[i + 1]], preset=1) for i in range(k))
@@ -301,13 +527,17 @@ class C19(core.Property):
         self._pcache[key] = (comp, ref)
     return self._pcache[key]
 
-  def run_call(self, d, name, call, inj, dl_bytes, read_sizes, hdr='ok'):
+  def run_call(self, d, name, call, inj, dl_bytes, read_sizes, hdr='ok', loopback=None):
     """Runs one real call with all effects routed through `inj`.
-    Returns ('ok', path) | ('crash', None) | ('raise', ExceptionName)."""
+    Returns ('ok', path) | ('crash', None) | ('raise', ExceptionName).
+    `hdr` is the response variant (see parse_variant); with `loopback` (a _Loopback server) the real
+    requests/urllib3 talk to a real socket instead of the stub."""
+    import time as _time
     dl = self.dl
     real_rename, real_replace = os.rename, os.replace
     missing = object()
-    saved = {k: dl.__dict__.get(k, missing) for k in ('open', 'requests', 'lzma', 'log')}
+    saved = {k: dl.__dict__.get(k, missing) for k in ('open', 'requests', 'lzma', 'log', 'time')}
+    nreq = [0]
 
     def w_open(file, mode='r', *a, **k):
       if is_under(file, d) and any(ch in mode for ch in 'wax+'):
@@ -327,7 +557,8 @@ class C19(core.Property):
 
     def w_get(url, *a, **k):
       inj.event('net', 'get')
-      return _Resp(dl_bytes, inj, read_sizes, hdr)
+      nreq[0] += 1
+      return _Resp(dl_bytes, inj, read_sizes, hdr, nreq[0] - 1)
 
     def w_lzma_open(filename, mode='rb', *a, **k):
       inj.event('read', 'open')
@@ -335,13 +566,17 @@ class C19(core.Property):
       return _RFile(f, inj) if 'r' in mode else f
 
     dl.open = w_open
-    dl.requests = _Proxy(saved['requests'], get=w_get)
+    if loopback is None:
+      dl.requests = _Proxy(saved['requests'], get=w_get)
+    if saved['time'] is not missing:
+      dl.time = _Proxy(saved['time'], sleep=lambda *_a: None)     # back-off sleeps are not part of the behaviour
     dl.lzma = _Proxy(saved['lzma'], open=w_lzma_open)
     dl.log = lambda *a, **k: None
     os.rename, os.replace = w_rename, w_replace
     try:
       if call == 0:
-        path = dl.maybe_download('https://example.invalid/some/dir/' + name + '?x=1', d)
+        base = 'https://example.invalid' if loopback is None else f'http://127.0.0.1:{loopback.port}'
+        path = dl.maybe_download(base + '/some/dir/' + name + '?x=1', d)
       else:
         path = dl.maybe_lzma_decompress(os.path.join(d, name))
       return ('ok', path)
@@ -437,12 +672,36 @@ class C19(core.Property):
 
   @staticmethod
   def map_crash(events, c, p, model_effs):
-    """real crash point (c, p) -> model crash point (c', p')."""
-    k = sum(1 for e in events[:c] if e[0] in FS_KINDS)
-    midx = [i for i, e in enumerate(model_effs) if e[0] in ('truncate', 'append', 'rename')]
-    c2 = midx[k] if k < len(midx) else len(model_effs)
+    """real crash point (c, p) -> model crash point (c', p').  Aligned on the publication structure
+    (open-for-write / rename events); inside a write phase on the number of completed writes."""
+    done = events[:c]
+    j = sum(1 for e in done if e[0] in ('open', 'rename'))
+    w = 0
+    for e in done:
+      if e[0] in ('open', 'rename'):
+        w = 0
+      elif e[0] == 'write':
+        w += 1
+    shape = [i for i, e in enumerate(model_effs) if e[0] in ('truncate', 'rename')]
+    if j >= len(shape):
+      return len(model_effs), 0
+    i = shape[j - 1] + 1 if j > 0 else 0
+    seen = 0
+    while i < shape[j] and seen < w:
+      if model_effs[i][0] == 'append':
+        seen += 1
+      i += 1
     is_write = c < len(events) and events[c][0] == 'write'
-    return c2, (p if is_write else 0)
+    if is_write:
+      while i < shape[j] and model_effs[i][0] != 'append':
+        i += 1
+      return i, (p if i < shape[j] else 0)
+    return i, 0
+
+  @staticmethod
+  def publication_shape(kinds):
+    """truncate-the-temp … rename: the writes in between are not compared one by one"""
+    return [k for k in kinds if not k.startswith('append')]
 
   @staticmethod
   def fs_kinds_real(events):
@@ -471,7 +730,9 @@ class C19(core.Property):
   # ------------------------------------------------------------------------------------------
   def evaluate(self, case, ctx):
     kind, size, init = case['kind'], case['size'], case['init']
-    P, D = self.payloads(kind, size, case.get('streams', 1), case.get('empty_first', False))
+    if 'loopback' in case:
+      return self._loopback_monitor(case, ctx)
+    P, D = self.payloads(kind, size, case.get('streams', 1), case.get('empty_first', False), case.get('zeros', 0))
     dlname, decname = self.names(kind)
     root = mkdtemp('verif_c19_')
     try:
@@ -480,6 +741,50 @@ class C19(core.Property):
       return self._schedule(case, ctx, root, P, D)
     finally:
       shutil.rmtree(root, ignore_errors=True)
+
+  def _loopback_monitor(self, case, ctx):
+    """The same uninterrupted download once against the stub and once through the REAL requests/urllib3
+    talking to a real socket: both must behave alike (the stub's faithfulness is part of the trusted
+    base, this monitors it), and the oracle is applied to both."""
+    kind, size, variant = case['kind'], case['size'], case['loopback']
+    P, D = self.payloads(kind, size)
+    dlname, _ = self.names(kind)
+    root = mkdtemp('verif_c19_')
+    probs, corr, seen = [], [], {}
+    old_np = os.environ.get('NO_PROXY')
+    os.environ['NO_PROXY'] = '127.0.0.1,localhost'
+    try:
+      for how in ('stub', 'real'):
+        d = self._fresh(root, how, kind, case['init'], P, D)
+        srv = _Loopback(P, variant) if how == 'real' else None
+        try:
+          r = self.run_call(d, dlname, 0, Injector(), P, [], variant, loopback=srv)
+        finally:
+          if srv is not None:
+            srv.close()
+        listing, _ = self.observe(d, kind, P, D)
+        seen[how] = [r[0], r[1] if r[0] == 'raise' else None, listing]
+        vk = parse_variant(variant)[0]
+        for key, txt in self.oracle_state(d, kind, P, D):
+          key += {'drop': '-on-drop', 'status': '-on-http-error'}.get(vk, '')
+          probs.append((key, f'download over {"a real loopback socket (real requests/urllib3)" if how == "real" else "the stub"}'
+                             f'{describe_variant(variant)}; call result {r[0]}: {txt}'))
+        cp = []
+        self._complete_and_check(d, kind, P, D, cp, ctx)
+        probs += [(k, f'[{how}] after a later good call: ' + t) for k, t in cp]
+      ctx.count('loopback_real_socket_cases')
+      if seen['stub'] != seen['real']:
+        corr.append(f'the requests stub is not faithful to the real library for variant {variant!r}, size {size}: '
+                    f'stub {seen["stub"]} vs real socket {seen["real"]}')
+    finally:
+      if old_np is None:
+        os.environ.pop('NO_PROXY', None)
+      else:
+        os.environ['NO_PROXY'] = old_np
+      shutil.rmtree(root, ignore_errors=True)
+    return Outcome(oracle_fail='; '.join(t for _, t in probs[:3]) or None, corr_fail='; '.join(corr[:2]) or None,
+                   key=probs[0][0] if probs else None, nontrivial=True,
+                   tags=('loopback', f'variant={parse_variant(variant)[0]}'), detail={'stub': seen.get('stub'), 'real': seen.get('real')})
 
   def _fresh(self, root, tag, kind, init, P, D):
     d = os.path.join(root, tag)
@@ -567,7 +872,7 @@ class C19(core.Property):
                      detail={'impl': res, 'model': plan})
     if res[0] != 'ok':
       probs.append((f'C19/{CALLS[call]}/clean-run-fails', f'uninterrupted {CALLS[call]} call: {res}'))
-    if self.fs_kinds_real(events) != self.fs_kinds_model(plan):
+    if self.publication_shape(self.fs_kinds_real(events)) != self.publication_shape(self.fs_kinds_model(plan)):
       corr.append(f'file-system effects of an uninterrupted call: impl {self.fs_kinds_real(events)[:12]} '
                   f'vs model {self.fs_kinds_model(plan)[:12]}')
     fine = case.get('fine')
@@ -609,9 +914,9 @@ class C19(core.Property):
       ctx.count('crash_points')
     answers = ctx.drv.ask(lines) if lines else []
     for (c, p), (listing, final_listing), ans in zip(points, impl_listings, answers):
-      if ans[0] != listing:
+      if not same_listing(ans[0], listing):
         corr.append(f'after crash {(c, p)}: impl listing {listing} vs model {ans[0]}')
-      if ans[-1] != final_listing and ans[-1] != 'raises':
+      if ans[-1] != 'raises' and not same_listing(ans[-1], final_listing):
         corr.append(f'after crash {(c, p)} + completed calls: impl {final_listing} vs model {ans[-1]}')
     if not probs:
       # hard-kill crash points: process death with unflushed data lost; close() is a crash point.
@@ -641,6 +946,31 @@ class C19(core.Property):
         for key, txt in st_probs + cp:
           probs.append((key, f'{CALLS[call]} killed before event {c} {hev[c]} with {pend[c]} unflushed bytes '
                              f'({int(f * 100)}% of them reached the disk): {txt}'))
+        if len(probs) > 4:
+          break
+    if not probs:
+      # I/O errors on the write side (ENOSPC, quota, EIO): OSError out of write() at every write index,
+      # including the last one, before any byte and after half of the block.  Oracle only.
+      for c, e in enumerate(events):
+        if e[0] != 'write' or e[1][1] <= WRITE_BUFFER:
+          continue        # a block that fits the writer's buffer reports its error at close(), not in write()
+        for p in sorted({0, e[1][1] // 2}):
+          d = self._fresh(root, 'run', kind, init, P, D)
+          before = self.finals_present(d, kind)
+          inj = Injector(crash_at=c, prefix=p, mode='ioerror')
+          r = self.run_call(d, dlname, call, inj, P, [])
+          listing, _ = self.observe(d, kind, P, D)
+          st_probs = [(k + '-on-write-error', t) for k, t in self.oracle_state(d, kind, P, D, before)]
+          cp = []
+          self._complete_and_check(d, kind, P, D, cp, ctx)
+          ctx.count('write_error_points')
+          if (st_probs or cp) and first_bad is None:
+            first_bad = {'OSError_from_write_event': c, 'event': [str(x) for x in e], 'bytes_written_before_the_error': p,
+                         'result_of_the_call': list(r), 'listing_after': listing}
+            self._last_fail = {core.case_digest(case): ('werr', c, p, len(events), e[1][1])}
+          for key, txt in st_probs + cp:
+            probs.append((key, f'{CALLS[call]}: write #{c} of {e[1][1]} bytes raised OSError after {p} bytes '
+                               f'(call result {r[0]}): {txt}'))
         if len(probs) > 4:
           break
     key = probs[0][0] if probs else None
@@ -697,17 +1027,26 @@ class C19(core.Property):
         corr.append(f'unexpected files {other}')
       if any(e[0] in FS_KINDS for e in events[:c]) and inj.fired:
         interrupted_late = True
+      vkind = parse_variant(hdr)[0]
       if hdr != 'ok':
-        ctx.count('headerless_responses')
+        ctx.count({'none': 'headerless_responses', 'drop': 'dropped_connections', 'status': 'http_error_responses'}[vkind])
       for key, txt in self.oracle_state(d, kind, P, D, before):
+        if (mode == 1 and inj.fired and c < len(events) and events[c][0] == 'write'
+            and events[c][1][1] > WRITE_BUFFER):
+          key += '-on-write-error'
+        if vkind == 'drop':
+          key += '-on-drop'
+        elif vkind == 'status':
+          key += '-on-http-error'
         probs.append((key, (f'{CALLS[call]} killed before event {c} (unflushed data lost)' if kill else
                             f'{CALLS[call]} interrupted at event {c} (+{p} bytes)' if inj.fired else
                             f'{CALLS[call]} ran to its end (result {r[0]} {r[1] if r[0] == "raise" else ""})') +
-                      ('' if hdr == 'ok' else ', response without content-length header') + f': {txt}'))
+                      describe_variant(hdr) + f': {txt}'))
       if hdr != 'ok' and not kill:
-        # oracle only: what a call does with a response that does not announce its size is not modelled
-        # (raising or reading to the end are both fine); the model continues from what is on disk
-        trace.append({'call': CALLS[call], 'response': 'no content-length header', 'crash_point': [c, p],
+        # oracle only: what a call does with a response that does not announce its size, whose connection
+        # is closed early or that carries an error status is not modelled (raising is fine, coping correctly
+        # is fine); the model continues from what is on disk
+        trace.append({'call': CALLS[call], 'response': describe_variant(hdr).lstrip(', '), 'crash_point': [c, p],
                       'fired': inj.fired, 'result': list(r), 'impl_listing': listing})
         fs_model = listing
         continue
@@ -732,7 +1071,7 @@ class C19(core.Property):
         ans_fs = ctx.drv.ask([line('c19.run', *zs, fs_model, sched)])[0][0]
       trace.append({'call': CALLS[call], 'crash_point': [c, p], 'fired': inj.fired, 'result': list(r),
                     'impl_listing': listing, 'model_listing': ans_fs})
-      if ans_fs != listing:
+      if not same_listing(ans_fs, listing):
         corr.append(f'after {CALLS[call]} crash {(c, p)}: impl listing {listing} vs model {ans_fs}')
         break
       fs_model = ans_fs
@@ -745,7 +1084,7 @@ class C19(core.Property):
       zs = self._sizes_args(P, D, dl_block, dec_block)
       sched = [[0, -1, 0]] + ([[1, -1, 0]] if kind == 'lzma' else [])
       ans = ctx.drv.ask([line('c19.run', *zs, fs_model, sched)])[0]
-      if ans[-1] != final_listing and ans[-1] != 'raises':
+      if ans[-1] != 'raises' and not same_listing(ans[-1], final_listing):
         corr.append(f'after completed calls: impl {final_listing} vs model {ans[-1]}')
     key = probs[0][0] if probs else None
     tags = ('schedule', f'kind={kind}', f'steps={len(case["sched"])}', self._size_tag(kind, size),
